@@ -9,6 +9,8 @@
 import GormModel.Lemmas.Where
 import GormModel.Lemmas.WhereSlices
 import GormModel.Lemmas.WhereRec
+import GormModel.Lemmas.CondValue
+import GormModel.Lemmas.UpdateKeys
 namespace Gorm
 
 /-- MAIN (units are indivisible): whatever list of conditions `Where.Build` ends up with — any number of
